@@ -66,7 +66,7 @@ type proxyProc struct {
 // their interval, so one of the runs uses slow ones
 var hostileHeartbeat, hostileIdle = "300ms", "3s"
 
-func startProxy(bin string, c *fakecql.Cluster, ip string, maxVersion string) (*proxyProc, error) {
+func startProxy(bin string, c *fakecql.Cluster, ip string, maxVersion string, extra ...string) (*proxyProc, error) {
 	l, err := net.Listen("tcp", "127.0.0.1:0")
 	if err != nil {
 		return nil, err
@@ -80,6 +80,7 @@ func startProxy(bin string, c *fakecql.Cluster, ip string, maxVersion string) (*
 		// the default version to connect with (v4) must not be above the maximum
 		p.cmd.Args = append(p.cmd.Args, "--protocol-version", "v3")
 	}
+	p.cmd.Args = append(p.cmd.Args, extra...)
 	p.cmd.Stderr = &lockedWriter{w: p.stderr, mu: &p.mu}
 	p.cmd.Stdout = io.Discard
 	if err := p.cmd.Start(); err != nil {
